@@ -25,6 +25,19 @@ type C02Op struct {
 	I  int    `json:"i,omitempty"`  // RowAdd with R == 0: AllRows()[I]
 	X  int    `json:"x,omitempty"`  // item id of the added cell
 	Xs []int  `json:"xs,omitempty"` // item ids
+	// T: which of the program's two tables the call is made on (0, 1).  One
+	// *Row may be passed to both tables' AddRow.
+	T int `json:"t,omitempty"`
+	// K, Ks: how the item (of RowAdd / of each of Xs) reaches the library:
+	// 0 a string (through NewCell for Row.Add); 1 a tabular.Cell value made by
+	// NewCell(text); 2 a tabular.Cell copied by value out of a row the program
+	// already built (its id is then that cell's: X selects the source); 3 a
+	// *tabular.Cell pointing at such a copy
+	K  int   `json:"k,omitempty"`
+	Ks []int `json:"ks,omitempty"`
+	// N: OtherAddRow only (never in a program; derived per table): the row's
+	// position in the other table
+	N int `json:"n,omitempty"`
 }
 
 type C02Spec struct {
@@ -132,6 +145,52 @@ func c02Valid(ops []C02Op) bool {
 			return false
 		}
 		s.apply(op)
+	}
+	return true
+}
+
+// c02ProgValid: every op of the program denotes a Go call the harness makes.
+// Programs over two tables use row variables only (no AllRows()[i].Add) and
+// attach a row at most once PER TABLE.
+func c02ProgValid(ops []C02Op) bool {
+	two := false
+	for _, op := range ops {
+		if op.T == 1 {
+			two = true
+		}
+	}
+	if !two {
+		return c02Valid(ops)
+	}
+	exists := map[int]bool{}
+	var in [2]map[int]bool
+	in[0], in[1] = map[int]bool{}, map[int]bool{}
+	for _, op := range ops {
+		switch op.O {
+		case "NewRow", "NewRowSizedFor":
+			if op.R < 1 || exists[op.R] {
+				return false
+			}
+			exists[op.R] = true
+		case "AppendNewRow":
+			if op.R < 1 || exists[op.R] {
+				return false
+			}
+			exists[op.R] = true
+			in[op.T][op.R] = true
+		case "RowAdd":
+			if op.R == 0 || !exists[op.R] {
+				return false
+			}
+		case "AddRow":
+			if !exists[op.R] || in[op.T][op.R] {
+				return false
+			}
+			in[op.T][op.R] = true
+		case "AddRowItems", "AddSeparator", "AddHeaders", "MutateAllRowsCopy":
+		default:
+			return false
+		}
 	}
 	return true
 }
@@ -264,6 +323,23 @@ func c02Random(r *RNG, maxLen, maxCells int) []C02Op {
 				}
 				for j := range h[i].Xs {
 					h[i].Xs[j] = reuse(h[i].Xs[j])
+				}
+			}
+		}
+		// in a third of the histories some items are cells already
+		if r.Intn(3) == 0 {
+			for i := range h {
+				if h[i].O == "RowAdd" && r.Pct(30) {
+					h[i].K = 1 + r.Intn(3)
+				}
+				if (h[i].O == "AddRowItems" || h[i].O == "AddHeaders") && len(h[i].Xs) > 0 && r.Pct(50) {
+					ks := make([]int, len(h[i].Xs))
+					for j := range ks {
+						if r.Pct(40) {
+							ks[j] = 1 + r.Intn(3)
+						}
+					}
+					h[i].Ks = ks
 				}
 			}
 		}
@@ -462,49 +538,177 @@ type c02Result struct {
 	Panic   string   `json:"panic,omitempty"`
 	PanicAt int      `json:"panic_at_op,omitempty"`
 	Last    *c02Dump `json:"last_dump,omitempty"`
+	Last2   *c02Dump `json:"last_dump_table2,omitempty"`
 }
 
 func c02GoLine(op C02Op) string {
-	items := func(xs []int) string {
+	t := "t"
+	if op.T == 1 {
+		t = "t2"
+	}
+	item := func(k, x int) string {
+		switch k {
+		case 1:
+			return fmt.Sprintf("tabular.NewCell(%q)", c02Text(x))
+		case 2:
+			return fmt.Sprintf("copyOfCell#%d /* a tabular.Cell copied by value from a row built so far */", x)
+		case 3:
+			return fmt.Sprintf("&copyOfCell#%d", x)
+		}
+		return fmt.Sprintf("%q", c02Text(x))
+	}
+	items := func(xs, ks []int) string {
 		ss := make([]string, len(xs))
 		for i, x := range xs {
-			ss[i] = fmt.Sprintf("%q", c02Text(x))
+			k := 0
+			if i < len(ks) {
+				k = ks[i]
+			}
+			ss[i] = item(k, x)
 		}
 		return strings.Join(ss, ", ")
+	}
+	cell := func(k, x int) string {
+		if k == 2 {
+			return item(2, x)
+		}
+		return "tabular.NewCell(" + item(k, x) + ")"
 	}
 	switch op.O {
 	case "NewRow":
 		return fmt.Sprintf("r%d := tabular.NewRow()", op.R)
 	case "NewRowSizedFor":
-		return fmt.Sprintf("r%d := t.NewRowSizedFor()", op.R)
+		return fmt.Sprintf("r%d := %s.NewRowSizedFor()", op.R, t)
 	case "AppendNewRow":
-		return fmt.Sprintf("r%d := t.AppendNewRow()", op.R)
+		return fmt.Sprintf("r%d := %s.AppendNewRow()", op.R, t)
 	case "RowAdd":
 		if op.R == 0 {
-			return fmt.Sprintf("t.AllRows()[%d].Add(tabular.NewCell(%q))", op.I, c02Text(op.X))
+			return fmt.Sprintf("%s.AllRows()[%d].Add(%s)", t, op.I, cell(op.K, op.X))
 		}
-		return fmt.Sprintf("r%d.Add(tabular.NewCell(%q))", op.R, c02Text(op.X))
+		return fmt.Sprintf("r%d.Add(%s)", op.R, cell(op.K, op.X))
 	case "AddRow":
-		return fmt.Sprintf("t.AddRow(r%d)", op.R)
+		return fmt.Sprintf("%s.AddRow(r%d)", t, op.R)
 	case "AddRowItems":
-		return fmt.Sprintf("t.AddRowItems(%s)", items(op.Xs))
+		return fmt.Sprintf("%s.AddRowItems(%s)", t, items(op.Xs, op.Ks))
 	case "AddSeparator":
-		return "t.AddSeparator()"
+		return t + ".AddSeparator()"
 	case "AddHeaders":
-		return fmt.Sprintf("t.AddHeaders(%s)", items(op.Xs))
+		return fmt.Sprintf("%s.AddHeaders(%s)", t, items(op.Xs, op.Ks))
 	case "MutateAllRowsCopy":
-		return "rr := t.AllRows(); reverse(rr); if len(rr) > 0 { rr[0] = nil }; rr = rr[:0]"
+		return "rr := " + t + ".AllRows(); reverse(rr); if len(rr) > 0 { rr[0] = nil }; rr = rr[:0]"
 	}
 	return "// ?" + op.O
 }
 
-// c02Exec replays the history; ops that denote no Go call (a shrink artefact)
-// are skipped, as the model and the spec skip them.
-func c02Exec(ops []C02Op, lastOnly bool) (out []byte, res c02Result, panicked bool) {
-	t := tabular.New()
+// c02Derive splits a program over up to two tables into one history per
+// table, in the op language of Base/Ops.v: the calls on that table; the
+// Row.Add calls on row variables (the model knows whether the row is in this
+// table, elsewhere or nowhere); where the OTHER table's AddRow / AppendNewRow
+// takes a row, OtherAddRow with the row's position there.  per[k][t] is the
+// number of ops program op k contributes to table t's history.  Ops that
+// denote no Go call (shrink artefacts) are dropped from both.
+func c02Derive(ops []C02Op) (hist [2][]C02Op, per [][2]int, ntables int) {
+	ntables = 1
+	for _, op := range ops {
+		if op.T == 1 {
+			ntables = 2
+		}
+	}
+	exists := map[int]bool{}
+	var in [2]map[int]bool
+	in[0], in[1] = map[int]bool{}, map[int]bool{}
+	var nrows [2]int
+	per = make([][2]int, len(ops))
+	for k, op := range ops {
+		T := op.T
+		emit := func(t int, o C02Op) {
+			o.T = 0
+			hist[t] = append(hist[t], o)
+			per[k][t]++
+		}
+		both := func(o C02Op) {
+			for t := 0; t < ntables; t++ {
+				emit(t, o)
+			}
+		}
+		other := 1 - T
+		switch op.O {
+		case "NewRow":
+			exists[op.R] = true
+			both(op)
+		case "NewRowSizedFor":
+			exists[op.R] = true
+			emit(T, op)
+			if ntables == 2 {
+				emit(other, C02Op{O: "NewRow", R: op.R})
+			}
+		case "AppendNewRow":
+			exists[op.R] = true
+			in[T][op.R] = true
+			nrows[T]++
+			emit(T, op)
+			if ntables == 2 {
+				emit(other, C02Op{O: "NewRow", R: op.R})
+				emit(other, C02Op{O: "OtherAddRow", R: op.R, N: nrows[T]})
+			}
+		case "RowAdd":
+			if op.R != 0 {
+				if exists[op.R] {
+					both(op)
+				}
+			} else if op.I >= 0 && op.I < nrows[T] {
+				emit(T, op) // only rows without a variable are addressed so: the other table cannot hold them
+			}
+		case "AddRow":
+			if exists[op.R] && !in[T][op.R] {
+				in[T][op.R] = true
+				nrows[T]++
+				emit(T, op)
+				if ntables == 2 {
+					emit(other, C02Op{O: "OtherAddRow", R: op.R, N: nrows[T]})
+				}
+			}
+		case "AddRowItems", "AddSeparator":
+			nrows[T]++
+			emit(T, op)
+		case "AddHeaders", "MutateAllRowsCopy":
+			emit(T, op)
+		}
+	}
+	return
+}
+
+type c02Outcome struct {
+	dumps    [2][]byte
+	res      c02Result
+	panicked bool
+	ntables  int
+	hist     [2][]C02Op // per-table histories, item ids resolved
+}
+
+// c02Exec runs the program on real tables and dumps each table after every op
+// of ITS history (or once at the end).
+func c02Exec(prog []C02Op, lastOnly bool) (out c02Outcome) {
+	ops := make([]C02Op, len(prog))
+	for i, op := range prog {
+		op.Xs = append([]int{}, op.Xs...)
+		ops[i] = op
+	}
+	_, per, ntables := c02Derive(ops)
+	out.ntables = ntables
+	tabs := []*tabular.ATable{tabular.New()}
+	if ntables == 2 {
+		tabs = append(tabs, tabular.New())
+	}
 	vars := map[int]*tabular.Row{}
-	attached := map[int]bool{}
+	var varOrder []int
+	var in [2]map[int]bool
+	in[0], in[1] = map[int]bool{}, map[int]bool{}
+	res := &out.res
 	lines := []string{"t := tabular.New()"}
+	if ntables == 2 {
+		lines = append(lines, "t2 := tabular.New()")
+	}
 	for i := 0; i < len(ops); {
 		j := i + 1
 		for j < len(ops) && c02SameCall(ops[i], ops[j]) {
@@ -523,29 +727,92 @@ func c02Exec(ops []C02Op, lastOnly bool) (out []byte, res c02Result, panicked bo
 	k := 0
 	defer func() {
 		if r := recover(); r != nil {
-			panicked = true
+			out.panicked = true
 			res.Panic = fmt.Sprint(r)
 			res.PanicAt = k
 			res.Sig = "panic"
 		}
 	}()
-	items := func(xs []int) []interface{} {
-		its := make([]interface{}, len(xs))
-		for i, x := range xs {
-			its[i] = c02Text(x)
+	// every cell the program has built so far, by value (tables, then the
+	// rows held in variables)
+	allCells := func() []tabular.Cell {
+		var cs []tabular.Cell
+		seen := map[*tabular.Row]bool{}
+		for _, t := range tabs {
+			cs = append(cs, t.Headers()...)
+			for _, r := range t.AllRows() {
+				if r != nil && !seen[r] {
+					seen[r] = true
+					cs = append(cs, r.Cells()...)
+				}
+			}
+		}
+		for _, v := range varOrder {
+			if r := vars[v]; !seen[r] {
+				seen[r] = true
+				cs = append(cs, r.Cells()...)
+			}
+		}
+		return cs
+	}
+	// the item for id x of kind k, and the id it really carries
+	mkItem := func(kind, x int) (interface{}, int) {
+		if kind >= 2 {
+			if cs := allCells(); len(cs) > 0 {
+				src := cs[x%len(cs)] // a copy by value, stale location and all
+				if kind == 3 {
+					return &src, cellID(&src)
+				}
+				return src, cellID(&src)
+			}
+			kind = 1
+		}
+		if kind == 1 {
+			return tabular.NewCell(c02Text(x)), x
+		}
+		return c02Text(x), x
+	}
+	items := func(op *C02Op) []interface{} {
+		its := make([]interface{}, len(op.Xs))
+		for i := range op.Xs {
+			kind := 0
+			if i < len(op.Ks) {
+				kind = op.Ks[i]
+			}
+			its[i], op.Xs[i] = mkItem(kind, op.Xs[i])
 		}
 		return its
 	}
+	dump := func(t int) {
+		d := dumpTable(tabs[t])
+		if lastOnly {
+			out.dumps[t] = d.bytes
+		} else {
+			out.dumps[t] = append(out.dumps[t], d.bytes...)
+		}
+		if res.Sig == "" {
+			res.Sig = d.sig()
+		}
+		if t == 0 || res.Last == nil {
+			res.Last = &d
+		} else {
+			res.Last2 = &d
+		}
+	}
 	for k = 0; k < len(ops); k++ {
-		op := ops[k]
+		op := &ops[k]
+		t := tabs[op.T%ntables]
 		switch op.O {
 		case "NewRow":
 			vars[op.R] = tabular.NewRow()
+			varOrder = append(varOrder, op.R)
 		case "NewRowSizedFor":
 			vars[op.R] = t.NewRowSizedFor()
+			varOrder = append(varOrder, op.R)
 		case "AppendNewRow":
 			vars[op.R] = t.AppendNewRow()
-			attached[op.R] = true
+			varOrder = append(varOrder, op.R)
+			in[op.T][op.R] = true
 		case "RowAdd":
 			var row *tabular.Row
 			if op.R == 0 {
@@ -556,19 +823,25 @@ func c02Exec(ops []C02Op, lastOnly bool) (out []byte, res c02Result, panicked bo
 				row = vars[op.R]
 			}
 			if row != nil {
-				row.Add(tabular.NewCell(c02Text(op.X)))
+				it, id := mkItem(op.K, op.X)
+				op.X = id
+				if c, ok := it.(tabular.Cell); ok && op.K == 2 {
+					row.Add(c) // the copied cell itself
+				} else {
+					row.Add(tabular.NewCell(it))
+				}
 			}
 		case "AddRow":
-			if row := vars[op.R]; row != nil && !attached[op.R] {
+			if row := vars[op.R]; row != nil && !in[op.T][op.R] {
 				t.AddRow(row)
-				attached[op.R] = true
+				in[op.T][op.R] = true
 			}
 		case "AddRowItems":
-			t.AddRowItems(items(op.Xs)...)
+			t.AddRowItems(items(op)...)
 		case "AddSeparator":
 			t.AddSeparator()
 		case "AddHeaders":
-			t.AddHeaders(items(op.Xs)...)
+			t.AddHeaders(items(op)...)
 		case "MutateAllRowsCopy":
 			rr := t.AllRows()
 			for i, j := 0, len(rr)-1; i < j; i, j = i+1, j-1 {
@@ -583,19 +856,18 @@ func c02Exec(ops []C02Op, lastOnly bool) (out []byte, res c02Result, panicked bo
 		if lastOnly {
 			continue
 		}
-		d := dumpTable(t)
-		out = append(out, d.bytes...)
-		if res.Sig == "" {
-			res.Sig = d.sig()
+		for tt := 0; tt < ntables; tt++ {
+			for n := per[k][tt]; n > 0; n-- {
+				dump(tt)
+			}
 		}
-		res.Last = &d
 	}
 	if lastOnly {
-		d := dumpTable(t)
-		out = d.bytes
-		res.Sig = d.sig()
-		res.Last = &d
+		for tt := 0; tt < ntables; tt++ {
+			dump(tt)
+		}
 	}
+	out.hist, _, _ = c02Derive(ops) // with the ids the copied cells turned out to carry
 	return
 }
 
@@ -616,7 +888,7 @@ func (d *c02Dump) sig() string {
 // the same call up to the item: Row.Add on the same row, or an identical op
 // that names no new row
 func c02SameCall(a, b C02Op) bool {
-	if a.O != b.O || a.R != b.R || a.I != b.I {
+	if a.O != b.O || a.R != b.R || a.I != b.I || a.T != b.T || a.K != b.K || len(a.Ks)+len(b.Ks) > 0 {
 		return false
 	}
 	switch a.O {
@@ -713,6 +985,8 @@ func c02CoqOp(op C02Op) string {
 		return fmt.Sprintf("RowAdd (RName %s) %s", cqNat(op.R), cqN(uint64(op.X)))
 	case "AddRowItems", "AddHeaders":
 		return fmt.Sprintf("%s %s", op.O, ids(op.Xs))
+	case "OtherAddRow":
+		return fmt.Sprintf("OtherAddRow (RName %s) %s", cqNat(op.R), cqNat(op.N))
 	}
 	return op.O
 }
@@ -729,6 +1003,7 @@ func c02Tags(ops []C02Op, res c02Result) []string {
 	}
 	rowsBefore := false
 	usedID := map[int]bool{}
+	tabsOf := map[int]map[int]bool{}
 	for _, op := range ops {
 		add("op=" + op.O)
 		switch op.O {
@@ -767,6 +1042,30 @@ func c02Tags(ops []C02Op, res c02Result) []string {
 		ids := op.Xs
 		if op.O == "RowAdd" {
 			ids = []int{op.X}
+		}
+		if op.T == 1 {
+			add("two-tables")
+		}
+		for _, kind := range append([]int{op.K}, op.Ks...) {
+			switch kind {
+			case 1:
+				add("item-is-a-fresh-Cell")
+			case 2:
+				add("item-is-a-copied-Cell")
+			case 3:
+				add("item-is-a-pointer-to-a-Cell")
+			}
+		}
+		if op.O == "AddRow" || op.O == "AppendNewRow" {
+			if tabsOf[op.R] == nil {
+				tabsOf[op.R] = map[int]bool{}
+			}
+			tabsOf[op.R][op.T] = true
+			if len(tabsOf[op.R]) == 2 {
+				add("row-in-two-tables")
+			}
+		} else if op.O == "RowAdd" && len(tabsOf[op.R]) == 2 {
+			add("rowadd-on-a-row-in-two-tables")
 		}
 		for _, x := range ids {
 			if x == 0 {
@@ -816,6 +1115,14 @@ func c02Size(ops []C02Op) int {
 		if op.O == "NewRowSizedFor" || (op.O == "RowAdd" && op.R == 0) {
 			n++ // prefer the plainer form
 		}
+		if op.K != 0 || op.T != 0 {
+			n++
+		}
+		for _, k := range op.Ks {
+			if k != 0 {
+				n++
+			}
+		}
 	}
 	return n
 }
@@ -862,7 +1169,7 @@ func c02DropOp(ops []C02Op, k int) []C02Op {
 func c02Shrink(ops []C02Op) [][]C02Op {
 	var out [][]C02Op
 	keep := func(c []C02Op) {
-		if c02Valid(c) {
+		if c02ProgValid(c) {
 			out = append(out, c)
 		}
 	}
@@ -899,6 +1206,18 @@ func c02Shrink(ops []C02Op) [][]C02Op {
 		setXs := func(nx []int) {
 			c := append([]C02Op{}, ops...)
 			c[k].Xs = append([]int{}, nx...)
+			if len(ops[k].Ks) > 0 {
+				// the kinds follow their items when one item is dropped from a short list
+				c[k].Ks = nil
+				if d := len(xs) - len(nx); d == 1 && len(ops[k].Ks) == len(xs) {
+					for j := range xs {
+						if j >= len(nx) || xs[j] != nx[j] {
+							c[k].Ks = append(append([]int{}, ops[k].Ks[:j]...), ops[k].Ks[j+1:]...)
+							break
+						}
+					}
+				}
+			}
 			out = append(out, c)
 		}
 		if n := len(xs); n >= 8 {
@@ -915,6 +1234,27 @@ func c02Shrink(ops []C02Op) [][]C02Op {
 			c := append([]C02Op{}, ops...)
 			c[k].O = "NewRow"
 			out = append(out, c)
+		}
+		// a Cell-typed item -> the plain string
+		if ops[k].K != 0 {
+			c := append([]C02Op{}, ops...)
+			c[k].K = 0
+			out = append(out, c)
+		}
+		for j, kind := range ops[k].Ks {
+			if kind != 0 && j < len(ops[k].Xs) {
+				c := append([]C02Op{}, ops...)
+				ks := append([]int{}, ops[k].Ks...)
+				ks[j] = 0
+				c[k].Ks = ks
+				out = append(out, c)
+			}
+		}
+		// everything on the first table
+		if ops[k].T == 1 {
+			c := append([]C02Op{}, ops...)
+			c[k].T = 0
+			keep(c)
 		}
 		// AllRows()[i].Add -> r.Add when the row has a variable
 		if ops[k].O == "RowAdd" && ops[k].R == 0 && !inner[k] {
@@ -1069,15 +1409,163 @@ func c02Sizes(r *RNG, add func([]C02Op), thorough bool) {
 	}
 }
 
+// items that are already cells: a tabular.Cell made by NewCell, a Cell copied
+// by value out of the header / a table row / a pre-built row (stale location
+// and all), a *Cell to such a copy - as AddRowItems / AddHeaders items and as
+// the argument of Row.Add, in every position of a short list and for every
+// source cell of a small table
+func c02Kinds(add func([]C02Op)) {
+	one := func(o C02Op) []C02Op { return []C02Op{o} }
+	prefix := []C02Op{
+		{O: "AddHeaders", Xs: []int{1, 2}},
+		{O: "AddSeparator"},
+		{O: "AddRowItems", Xs: []int{3, 4}},
+		{O: "NewRow", R: 1}, {O: "RowAdd", R: 1, X: 5},
+		{O: "AppendNewRow", R: 2}, {O: "RowAdd", R: 2, X: 6},
+	}
+	const nsrc = 6 // cells the prefix has built
+	for kind := 1; kind <= 3; kind++ {
+		sels := []int{7}
+		if kind >= 2 {
+			sels = []int{0, 1, 2, 3, 4, 5}
+		}
+		for _, x := range sels {
+			for _, o := range []string{"AddRowItems", "AddHeaders"} {
+				add(c02Cat(prefix, one(C02Op{O: o, Xs: []int{x}, Ks: []int{kind}})))
+				add(c02Cat(prefix, one(C02Op{O: o, Xs: []int{x, 8}, Ks: []int{kind, 0}})))
+				add(c02Cat(prefix, one(C02Op{O: o, Xs: []int{8, x}, Ks: []int{0, kind}})))
+				add(c02Cat(prefix, one(C02Op{O: o, Xs: []int{8, x, x}, Ks: []int{0, kind, kind}})))
+			}
+			add(c02Cat(prefix, one(C02Op{O: "RowAdd", R: 1, X: x, K: kind}), one(C02Op{O: "AddRow", R: 1})))
+			add(c02Cat(prefix, one(C02Op{O: "RowAdd", R: 2, X: x, K: kind})))
+			add(c02Cat(prefix, one(C02Op{O: "RowAdd", I: 1, X: x, K: kind})))
+			add(c02Cat(prefix, one(C02Op{O: "RowAdd", I: 0, X: x, K: kind}))) // on the separator
+		}
+		// with nothing built yet
+		for _, o := range []string{"AddRowItems", "AddHeaders"} {
+			add(one(C02Op{O: o, Xs: []int{1}, Ks: []int{kind}}))
+			add([]C02Op{{O: o, Xs: []int{1, 2}, Ks: []int{kind, kind}}, {O: o, Xs: []int{0, 1}, Ks: []int{kind, kind}}})
+		}
+		add([]C02Op{{O: "AppendNewRow", R: 1}, {O: "RowAdd", R: 1, X: 1, K: kind}, {O: "RowAdd", R: 1, X: 0, K: kind}})
+	}
+	_ = nsrc
+}
+
+// programs over two tables that pass one *Row to both tables' AddRow (and
+// add cells to it before, between and after): every table is judged on its
+// own history.  What the code does: the row object is shared; it reports the
+// position in, and its Row.Add widens, the table it was added to LAST.
+func c02TwoTables(r *RNG, add func([]C02Op), thorough bool) {
+	on := func(t int, ops ...C02Op) []C02Op {
+		out := make([]C02Op, len(ops))
+		for i, o := range ops {
+			o.T = t
+			out[i] = o
+		}
+		return out
+	}
+	adds := func(n int, from int) []C02Op {
+		var out []C02Op
+		for i := 0; i < n; i++ {
+			out = append(out, C02Op{O: "RowAdd", R: 1, X: from + i})
+		}
+		return out
+	}
+	preA := [][]C02Op{nil, on(0, C02Op{O: "AddSeparator"}), on(0, C02Op{O: "AddRowItems", Xs: []int{1}}, C02Op{O: "AddSeparator"}, C02Op{O: "AddRowItems", Xs: []int{2}})}
+	preB := [][]C02Op{nil, on(1, C02Op{O: "AddRowItems", Xs: []int{3, 4}}), on(1, C02Op{O: "AddHeaders", Xs: []int{5}}, C02Op{O: "AddSeparator"}, C02Op{O: "AddSeparator"})}
+	final := c02Cat(on(0, C02Op{O: "MutateAllRowsCopy"}), on(1, C02Op{O: "MutateAllRowsCopy"}))
+	for _, pa := range preA {
+		for _, pb := range preB {
+			for mk := 0; mk < 4; mk++ {
+				for before := 0; before <= 2; before++ {
+					for between := 0; between <= 1; between++ {
+						for after := 0; after <= 2; after++ {
+							var create []C02Op
+							attachA := on(0, C02Op{O: "AddRow", R: 1})
+							switch mk {
+							case 0:
+								create = []C02Op{{O: "NewRow", R: 1}}
+							case 1:
+								create = on(0, C02Op{O: "NewRowSizedFor", R: 1})
+							case 2:
+								create = on(1, C02Op{O: "NewRowSizedFor", R: 1})
+							case 3:
+								create, attachA = on(0, C02Op{O: "AppendNewRow", R: 1}), nil
+							}
+							add(c02Cat(pa, pb, create, adds(before, 10), attachA, adds(between, 20),
+								on(1, C02Op{O: "AddRow", R: 1}), adds(after, 30), final))
+						}
+					}
+				}
+			}
+		}
+	}
+	// random programs: a few row variables wandering between the two tables
+	n := 120
+	if thorough {
+		n = 3000
+	}
+	for i := 0; i < n; i++ {
+		var h []C02Op
+		exists := map[int]bool{}
+		var in [2]map[int]bool
+		in[0], in[1] = map[int]bool{}, map[int]bool{}
+		next, id := 1, 1
+		nid := func() int { id++; return (id-2)%200 + 1 }
+		for len(h) < 4+r.Intn(14) {
+			t := r.Intn(2)
+			var vs []int
+			for v := 1; v < next; v++ {
+				vs = append(vs, v)
+			}
+			switch k := r.Intn(12); {
+			case k < 1:
+				h = append(h, C02Op{O: "AddHeaders", T: t, Xs: []int{nid(), nid()}[:r.Intn(3)]})
+			case k < 2:
+				h = append(h, C02Op{O: "AddRowItems", T: t, Xs: []int{nid(), nid(), nid()}[:r.Intn(4)]})
+			case k < 3:
+				h = append(h, C02Op{O: "AddSeparator", T: t})
+			case k < 5 && next <= 3:
+				o := pick(r, []string{"NewRow", "NewRowSizedFor", "AppendNewRow"})
+				h = append(h, C02Op{O: o, T: t, R: next})
+				if o == "AppendNewRow" {
+					in[t][next] = true
+				}
+				exists[next] = true
+				next++
+			case k < 8 && len(vs) > 0:
+				v := pick(r, vs)
+				for j := 1 + r.Intn(3); j > 0; j-- {
+					h = append(h, C02Op{O: "RowAdd", R: v, X: nid()})
+				}
+			case k < 11 && len(vs) > 0:
+				v := pick(r, vs)
+				if !in[t][v] {
+					in[t][v] = true
+					h = append(h, C02Op{O: "AddRow", T: t, R: v})
+				}
+			case k == 11:
+				h = append(h, C02Op{O: "MutateAllRowsCopy", T: t})
+			}
+		}
+		h = append(h, final...)
+		if c02ProgValid(h) {
+			add(h)
+		}
+	}
+}
+
 func init() {
 	register(&Prop{
 		ID:       "C02",
 		Imports:  "From Tab Require Import Run.Glue Run.C02Run.",
-		CaseType: "(list (op N) * bool * res (list N))",
+		CaseType: "(list (list (op N) * bool * res (list N)))",
 		CaseFn:   "C02_case",
 		ModelFn:  "C02_model",
 		Rule: "build histories over {AddHeaders, AddRowItems, AddSeparator, AppendNewRow, NewRow, NewRowSizedFor, Row.Add on any existing row (a row variable, detached or attached, or AllRows()[i] incl. separators), " +
 			"AddRow of any still-detached row, mutate the AllRows() copy}; every op denotes a Go call and a pre-built row is attached at most once (wf_hist); item texts may repeat and may be empty; " +
+			"an item may be a string, a tabular.Cell made by NewCell, a Cell copied by value out of a row built earlier, or a *Cell to such a copy; " +
+			"a program may build two tables and pass one *Row to both tables' AddRow (each table is then judged on its own history, in which the other table's AddRow is the op OtherAddRow); " +
 			"the table is dumped after every op (after the last op only for the histories that build rows of 255..1030 cells or tables of 255..300 rows); " +
 			"a case is non-trivial when the table ends with at least one row or a header; distinct = distinct history",
 		Exhaustive: "all valid histories of exactly 3 ops over the full alphabet (cell counts 0/1/2, distinct items) and exactly 4 ops over the reduced alphabet (cell counts 0/1, no NewRowSizedFor) in the quick tier, " +
@@ -1090,6 +1578,8 @@ func init() {
 			addLast := func(h []C02Op) { big = append(big, mustJSON(C02Spec{Ops: h, LastOnly: true})) }
 			thorough := tier == "thorough"
 			c02Contents(add, thorough)
+			c02Kinds(add)
+			c02TwoTables(r, add, thorough)
 			c02Sizes(r, addLast, thorough)
 			if thorough {
 				c02Enum(4, true, add)
@@ -1123,23 +1613,28 @@ func init() {
 			if err := json.Unmarshal(spec, &cs); err != nil {
 				panic(err)
 			}
-			dump, res, panicked := c02Exec(cs.Ops, cs.LastOnly)
-			obs := "(Ok " + cqBytes(dump) + ")"
-			if panicked {
-				obs = "Panic"
+			o := c02Exec(cs.Ops, cs.LastOnly)
+			var parts []string
+			for t := 0; t < o.ntables; t++ {
+				obs := "(Ok " + cqBytes(o.dumps[t]) + ")"
+				if o.panicked {
+					obs = "Panic"
+				}
+				parts = append(parts, "("+c02CoqHistory(o.hist[t])+", "+cqBool(!cs.LastOnly)+", "+obs+")")
 			}
-			h := c02CoqHistory(cs.Ops)
-			tags := c02Tags(cs.Ops, res)
+			h := cqList(parts)
+			tags := c02Tags(cs.Ops, o.res)
 			if cs.LastOnly {
 				tags = append(tags, "dumped-after-last-op-only")
 			}
+			key := string(spec)
 			return CaseOut{
-				Coq:        "(" + h + ", " + cqBool(!cs.LastOnly) + ", " + obs + ")",
-				Desc:       res,
+				Coq:        h,
+				Desc:       o.res,
 				Size:       c02Size(cs.Ops),
 				Tags:       tags,
-				Key:        h + cqBool(cs.LastOnly),
-				Nontrivial: res.Last != nil && (res.Last.NRows > 0 || res.Last.Header != nil),
+				Key:        key,
+				Nontrivial: o.res.Last != nil && (o.res.Last.NRows > 0 || o.res.Last.Header != nil),
 			}
 		},
 		Shrink: func(spec json.RawMessage) []json.RawMessage {
